@@ -96,7 +96,11 @@ func H_C12_classes() {
 		vfAssume(pfx[i] != '{')
 	}
 	n := ndInt64("n")
-	vfAssume(n >= 4 || n < 0)
+	if hxContains(c12Failing[c], ":") {
+		vfAssume(n >= 4 || n < 0) // slice bounds: len itself is in range
+	} else {
+		vfAssume(n >= 3 || n < 0) // index: len itself is out of range
+	}
 	set := hxSet(nil, "/m.jet", pfx+"x"+c12Failing[c]+"\nREST{{ after() }}{{ block b(p=1) }}{{ end }}")
 	log := &hxLog{}
 	vars := c12Vars(n)
